@@ -535,12 +535,14 @@ func c03Iter(c *Ctx, pp, tag string) {
 		bodies := 0
 		clears := 0
 		isRange := false
+		var body *ssa.Call
 		for b := range l.Blocks {
 			for _, in := range b.Instrs {
 				switch x := in.(type) {
 				case *ssa.Call:
 					if x.Call.StaticCallee() == runStmts {
 						bodies++
+						body = x
 					}
 					if x.Call.StaticCallee() != nil && x.Call.StaticCallee().Name() == "Clear" {
 						clears++
@@ -563,8 +565,16 @@ func c03Iter(c *Ctx, pp, tag string) {
 		}
 		r.Ob("ITER", fmt.Sprintf("%s.RunForInStmt loop #%d runs the body once per element", tag, li+1), t.Pos(firstPos(l.Header)), isRange && bodies == 1 && !nested,
 			fmt.Sprintf("range loop=%v, body executions per iteration=%d, nested in another loop=%v", isRange, bodies, nested))
-		r.Ob("ITER", fmt.Sprintf("%s.RunForInStmt loop #%d clears the loop scope every iteration", tag, li+1), t.Pos(firstPos(l.Header)), clears == 1,
-			fmt.Sprintf("%d stackCur.Clear() calls per iteration: variables created in one iteration must not be visible in the next", clears))
+		// path rule: no way from one body execution to the next without passing stackCur.Clear()
+		skip := false
+		if body != nil {
+			skip = reachAvoid(body, body, func(in ssa.Instruction) bool {
+				call, ok := in.(*ssa.Call)
+				return ok && call.Call.StaticCallee() != nil && call.Call.StaticCallee().Name() == "Clear"
+			})
+		}
+		r.Ob("ITER", fmt.Sprintf("%s.RunForInStmt loop #%d clears the loop scope every iteration", tag, li+1), t.Pos(firstPos(l.Header)), clears >= 1 && body != nil && !skip,
+			fmt.Sprintf("%d stackCur.Clear() calls in the loop; a path from one body execution to the next that avoids Clear exists: %v — variables created in one iteration must not be visible in the next, however the iteration ended", clears, skip))
 	}
 	r.FloorN(tag+" for-in loops", n, 3)
 }
@@ -646,17 +656,8 @@ func c03Vars(c *Ctx) {
 	// `_` alias
 	for _, name := range []string{"GetKey", "GetKeyConv2Str", "SetVarb"} {
 		f := t.Method(pRT, "Task", name)
-		ok := false
-		if f != nil {
-			allInstrs(f, func(in ssa.Instruction) {
-				if bo, isB := in.(*ssa.BinOp); isB && bo.Op == token.EQL {
-					if cv, isC := bo.Y.(*ssa.Const); isC && cv.Value != nil && cv.Value.ExactString() == `"_"` {
-						ok = true
-					}
-				}
-			})
-		}
-		r.Ob("VARS", "Task."+name+" maps `_` to the message key", "pkg/engine/runtime/context.go", ok, "`_` stands for `message`")
+		ok, why := aliasBeforeUse(f)
+		r.Ob("VARS", "Task."+name+" maps `_` to the message key before any lookup", "pkg/engine/runtime/context.go", ok, "`_` stands for `message`: "+why)
 	}
 	// identifier miss -> (nil, Nil, nil)
 	okMiss := false
@@ -680,4 +681,63 @@ func c03Vars(c *Ctx) {
 		}
 	})
 	r.Ob("VARS", "RunStmt evaluates an unresolved identifier to nil", t.Pos(rs.Pos()), okMiss, "a name with neither variable nor point key reads as (nil, Nil) without error")
+}
+
+// aliasBeforeUse: the function compares a string parameter with "_" and replaces it by the message key, and no
+// call receives the raw parameter (a lookup made with the un-aliased key misses the variable / field `message`).
+func aliasBeforeUse(f *ssa.Function) (bool, string) {
+	if f == nil {
+		return false, "function not found"
+	}
+	n := 0
+	for _, p := range f.Params {
+		aliased := false
+		var raw []string
+		for _, ref := range *p.Referrers() {
+			switch x := ref.(type) {
+			case *ssa.BinOp:
+				if cv, isC := x.Y.(*ssa.Const); isC && x.Op == token.EQL && cv.Value != nil && cv.Value.ExactString() == `"_"` {
+					aliased = true
+				}
+			case *ssa.Phi, *ssa.DebugRef:
+			case ssa.CallInstruction:
+				cal := x.Common().StaticCallee()
+				if cal != nil && cal.Pkg != nil && (cal.Pkg.Pkg.Path() == "fmt" || cal.Pkg.Pkg.Path() == "errors") {
+					continue
+				}
+				nm := "dynamic call"
+				if cal != nil {
+					nm = cal.Name()
+				} else if x.Common().IsInvoke() {
+					nm = x.Common().Method.Name()
+				}
+				raw = append(raw, nm)
+			}
+		}
+		if !aliased {
+			continue
+		}
+		n++
+		if len(raw) > 0 {
+			return false, fmt.Sprintf("parameter %s is passed un-aliased to %v", p.Name(), raw)
+		}
+		// the alias value is the message-key constant
+		okConst := false
+		for _, ref := range *p.Referrers() {
+			if ph, ok := ref.(*ssa.Phi); ok {
+				for _, e := range ph.Edges {
+					if cv, ok := e.(*ssa.Const); ok && cv.Value != nil && cv.Value.ExactString() == `"message"` {
+						okConst = true
+					}
+				}
+			}
+		}
+		if !okConst {
+			return false, "parameter " + p.Name() + " is compared with `_` but not replaced by the message key"
+		}
+	}
+	if n == 0 {
+		return false, "no parameter is compared with `_`"
+	}
+	return true, fmt.Sprintf("%d key parameter(s) aliased before every use", n)
 }
